@@ -91,14 +91,9 @@ def runNcg (j : Json) : Option Json := do
     let inf ← fInt? fj "info"
     some (sc, inf)
   let cgE : RVec n → RVec n → RVec n × Int := fun pos g =>
-    if let some (sc, inf) := fake then (sc • g, inf) else
-    match CgRe.cgEager cc RVec.dot (hessp pos) g none with
-    | .ok r => (r.x, r.info)
-    | .error _ => (g, -1)
+    if let some (sc, inf) := fake then (sc • g, inf) else NewtonRe.cgOracle cc RVec.dot hessp pos g
   let cgS : RVec n → RVec n → RVec n × Int := fun pos g =>
-    if let some (sc, inf) := fake then (sc • g, inf) else
-    let s := CgRe.cgStatic cc RVec.dot (hessp pos) g none
-    (s.pos, s.info)
+    if let some (sc, inf) := fake then (sc • g, inf) else NewtonRe.cgOracleStatic cc RVec.dot hessp pos g
   let resJ (r : NewtonRe.NRes Rat (RVec n)) : Json :=
     jObj [("x", jApprox r.x.toList), ("status", jInt r.status), ("fun", ratApprox r.fn), ("nit", jNat r.nit)]
   let eager := NewtonRe.ncgEager c f hessp RVec.dot l1 cgE x0
